@@ -22,6 +22,7 @@ func init() {
 			ID: "C09",
 			Explanation: "Order, branching and who-gets-what of the shutdown choreography are decided on every path; all times are not. shutdown(): with no agents the runtime is killed at once (no TERM), otherwise shutdownRuntime then shutdownAgents, the runtime deadline being 30% and the agents' deadline 100% of the available time; every path waits for the exit channels (2 s grace) before returning. shutdownRuntime: Terminate precedes the wait, Kill is reachable only from the deadline case of the select, the deadline context is built from the deadline parameter, nothing is signalled for a runtime that was never started. " +
 				"shutdownAgents: the SHUTDOWN renderer (event type, reason and deadline wired from the parameters) is installed before any goroutine is started; a subscribed agent gets exactly one Release and is killed only from the deadline case of a select on a context created inside its own goroutine (deadline attached only in standalone mode, which the emulator's builder selects); an unsubscribed agent is killed and never released; agents without an exit channel are skipped before wg.Add; every goroutine defers wg.Done and Wait precedes the return. Every Kill request gives the supervisor a fresh deadline of now + 9 s. handleProcessExit maps exit status 0 to Exited, anything else to ShutdownFailed, and closes the process's channel once. " +
+				"Added after the blind rounds: both deadlines derive from one clock reading; shutdown functions run before the API server is cancelled; group kill; handler serialisation. " +
 				"NOT decided: 30%/100% timing, 'killed only if still alive', the product of process behaviours.",
 			RuleText:    "one obligation per branch/order rule, per Kill/Terminate site, per wiring edge, per constant",
 			Assumptions: trusted,
